@@ -251,7 +251,8 @@ fn data_value() -> Message<Vec<u8>> {
 }
 
 fn hidden_value() -> AVP {
-    let a = bridge::avp_to_crate(&vgen::canonical(8)).unwrap();
+    // three MD5 blocks: the chaining over later blocks is where a cached key would be used
+    let a = bridge::avp_to_crate(&SAvp::Plain { attr: 8, val: SVal::Str(vgen::utf8_of_len(33)) }).unwrap();
     a.hide(b"secret", &RandomVector { value: [1, 2, 3, 4] }, &[9, 9, 9], &[7u8; 16])
 }
 
@@ -301,7 +302,16 @@ pub fn call<K: Tick>(i: usize, tick: &K) -> String {
         }
         _ => {
             tick.tick();
-            format!("{:?}", hidden_value().reveal(b"Secret", &RandomVector { value: [1, 2, 3, 4] }))
+            // a different secret of the same length as the other calls', a value of three blocks,
+            // hidden and revealed with it, and the first call's value revealed with the wrong key
+            let a = bridge::avp_to_crate(&SAvp::Plain { attr: 7, val: SVal::Bytes(ramp(40)) }).unwrap();
+            let h = a.hide(b"Secret", &RandomVector { value: [9, 8, 7, 6] }, &[5], &[3u8; 16]);
+            let shown = format!("{h:?}");
+            format!(
+                "{shown} / {:?} / {:?}",
+                h.reveal(b"Secret", &RandomVector { value: [9, 8, 7, 6] }),
+                hidden_value().reveal(b"Secret", &RandomVector { value: [1, 2, 3, 4] })
+            )
         }
     });
     match r {
@@ -313,7 +323,8 @@ pub fn call<K: Tick>(i: usize, tick: &K) -> String {
 /// inputs of the instrumented-sync driver (vh_sync): the six decode inputs and a Vendor Name record
 pub fn sync_inputs_json() -> String {
     let mut v: Vec<String> = inputs().iter().map(|b| hex(b)).collect();
-    v.push(hex(&gen::avp_record(0x01, 0, 8, "näme".as_bytes())));
+    v.push(hex(&gen::avp_record(0x01, 0, 8, vgen::utf8_of_len(33).as_bytes())));
+    v.push(hex(&gen::avp_record(0x01, 0, 7, &ramp(40))));
     serde_json::to_string(&v).unwrap()
 }
 
@@ -596,21 +607,18 @@ fn silence_sweep(ctx: &mut Ctx) {
 }
 
 fn result_hash(entry: Entry, bytes: &[u8]) -> u64 {
-    let r = guarded(|| match entry {
+    // through the monitored reader: never an out-of-range access, whatever the tree does
+    let s = match entry {
         Entry::Message => {
-            let mut r = rl2tp::common::SliceReader::from(bytes);
-            let out = Message::<&[u8]>::try_read_validate(&mut r, bridge::options(spec::OPT_STRICT));
-            format!("{out:?}{}", Reader::len(&r))
+            let (r, obs) = crate::run::decode_msg(crate::run::ReaderKind::R2a, bytes, Some(spec::OPT_STRICT), false);
+            format!("{r:?}{}", obs.remaining)
         }
         _ => {
-            let mut r = rl2tp::common::SliceReader::from(bytes);
-            format!("{:?}", AVP::try_read_greedy(&mut r))
+            let (r, _) = crate::run::decode_avps(crate::run::ReaderKind::R2a, bytes, false);
+            format!("{r:?}")
         }
-    });
-    match r {
-        Ok(s) => fnv(s.as_bytes(), 1),
-        Err(p) => fnv(p.0.as_bytes(), 2),
-    }
+    };
+    fnv(s.as_bytes(), 1)
 }
 
 fn long_history(ctx: &mut Ctx) {
@@ -941,7 +949,12 @@ fn replay_c19(ctx: &mut Ctx, v: &Value) {
                 }
             }
         }
-        Some("silence-sweep") | Some("fd") => {
+        Some("silence-sweep") => {
+            // an abort / hang inside the sweep reproduces here (the process dies with it)
+            let desc = || json!({"kind":"silence-sweep"});
+            ctx.case(&desc, silence_sweep);
+        }
+        Some("fd") => {
             println!("  the silence check is an fd monitor of the worker process: re-run ./check C19 quick");
         }
         _ => {
